@@ -211,12 +211,26 @@ func (f *FBaseProcessorFunction) SendError(fctx FContext, oprot *FProtocol, kind
 
 func (f *FBaseProcessorFunction) sendError(ctx context.Context, fctx FContext, oprot *FProtocol, kind int32, method, message string) error {
 	err := thrift.NewTApplicationException(kind, message)
-	oprot.WriteResponseHeader(fctx)
-	oprot.WriteMessageBegin(ctx, method, thrift.EXCEPTION, 0)
-	err.Write(ctx, oprot)
-	oprot.WriteMessageEnd(ctx)
-	oprot.Flush(ctx)
+	f.writeException(ctx, fctx.ResponseHeaders(), oprot, method, err)
 	return err
+}
+
+// writeException writes an exception reply with the given response headers
+// and stops at the first write that fails.
+func (f *FBaseProcessorFunction) writeException(ctx context.Context, headers map[string]string, oprot *FProtocol, method string, ex thrift.TApplicationException) error {
+	if err := oprot.writeHeader(headers); err != nil {
+		return err
+	}
+	if err := oprot.WriteMessageBegin(ctx, method, thrift.EXCEPTION, 0); err != nil {
+		return err
+	}
+	if err := ex.Write(ctx, oprot); err != nil {
+		return err
+	}
+	if err := oprot.WriteMessageEnd(ctx); err != nil {
+		return err
+	}
+	return oprot.Flush(ctx)
 }
 
 // SendReply ...
@@ -251,7 +265,22 @@ func (f *FBaseProcessorFunction) trapError(ctx context.Context, fctx FContext, o
 		if r, ok := oprot.TProtocol.(interface{ Reset() }); ok {
 			r.Reset()
 		}
-		f.sendError(ctx, fctx, oprot, APPLICATION_EXCEPTION_RESPONSE_TOO_LARGE, method, err.Error())
+		ex := thrift.NewTApplicationException(APPLICATION_EXCEPTION_RESPONSE_TOO_LARGE, err.Error())
+		if werr := f.writeException(ctx, fctx.ResponseHeaders(), oprot, method, ex); IsErrTooLarge(werr) {
+			// The handler's response headers alone do not fit: the caller
+			// still has to learn why there is no reply, so keep only the
+			// headers that route the exception to it.
+			if r, ok := oprot.TProtocol.(interface{ Reset() }); ok {
+				r.Reset()
+			}
+			routing := make(map[string]string)
+			for _, name := range []string{opIDHeader, cidHeader} {
+				if value, ok := fctx.ResponseHeader(name); ok {
+					routing[name] = value
+				}
+			}
+			f.writeException(ctx, routing, oprot, method, ex)
+		}
 		return nil
 	}
 	return err
